@@ -101,6 +101,23 @@ def theorem_names(prop_file):
     return [prefix + n for n in re.findall(r"^theorem\s+(\S+)", src, re.M)]
 
 
+def import_closure(module):
+    """project-local modules transitively imported by `module` (including itself)"""
+    seen, todo = set(), [module]
+    while todo:
+        m = todo.pop()
+        if m in seen:
+            continue
+        fpath = os.path.join(LEAN, *m.split(".")) + ".lean"
+        if not os.path.exists(fpath):
+            continue
+        seen.add(m)
+        for imp in re.findall(r"^import\s+(\S+)", open(fpath).read(), re.M):
+            if imp.split(".")[0] in ("PycommModel", "PycommProofs", "PycommProps"):
+                todo.append(imp)
+    return seen
+
+
 class Ctx:
     def __init__(self, prop, tier, seed):
         self.prop = prop
@@ -183,16 +200,15 @@ def audit(ctx, prop):
     names = theorem_names(pfile)
     ctx.proof["theorems"] = names
     ctx.proof["obligations"] = len(names)
-    # forbidden constructs anywhere in the Lean sources
+    # forbidden constructs anywhere in the Lean sources this property's theorems depend on
     bad = []
-    for root, _, files in os.walk(LEAN):
-        if ".lake" in root or ".audit" in root:
-            continue
-        for f in files:
-            if f.endswith(".lean"):
-                src = strip_comments(open(os.path.join(root, f)).read())
-                for m in FORBIDDEN.finditer(src):
-                    bad.append("%s: %s" % (os.path.relpath(os.path.join(root, f), LEAN), m.group(0).strip()))
+    closure = import_closure("PycommProps." + prop)
+    ctx.proof["modules"] = sorted(closure)
+    for mod in closure:
+        fpath = os.path.join(LEAN, *mod.split(".")) + ".lean"
+        src = strip_comments(open(fpath).read())
+        for m in FORBIDDEN.finditer(src):
+            bad.append("%s: %s" % (os.path.relpath(fpath, LEAN), m.group(0).strip()))
     if bad:
         ctx.proof["broken"].append({"what": "forbidden construct", "hits": bad[:20]})
     adir = os.path.join(LEAN, ".audit")
